@@ -42,7 +42,7 @@ func init() {
 		MinEvals:    floor(20000, 600000),
 		MinDistinct: floor(2000, 60000),
 		RequiredCells: func(string) []string {
-			cells := []string{"cid/ToSealed", "cid/ToSealedWriter", "cid/FromSealed", "cid/FromSealedReader", "cid/container", "cid/ToSealedWriter-piecewise", "cid/container-foreign-section-cid", "cid/mixed-container", "every-size", "sig/s-flip", "sig/der-padded", "sig/zero-prepended", "sig/zero-appended", "sig/leading-zeros-stripped", "sig/leading-zero-signature/rsa2048", "variant/extra-element", "variant/envelope-rearranged"}
+			cells := []string{"cid/ToSealed", "cid/ToSealedWriter", "cid/FromSealed", "cid/FromSealedReader", "cid/container", "cid/ToSealedWriter-piecewise", "cid/container-foreign-section-cid", "cid/mixed-container", "every-size", "trailing-bytes", "trailing-bytes/power-of-two-size", "sig/s-flip", "sig/der-padded", "sig/zero-prepended", "sig/zero-appended", "sig/leading-zeros-stripped", "sig/leading-zero-signature/rsa2048", "variant/extra-element", "variant/envelope-rearranged"}
 			for _, k := range []string{"widen-1", "widen-2", "widen-4", "widen-8", "indefinite", "indefinite-split", "map-reverse", "map-rotate", "float-narrow", "null-undefined", "all-knobs"} {
 				cells = append(cells, "variant/"+k)
 			}
@@ -699,6 +699,42 @@ func c08EverySize(w *mon.W) {
 		}
 		if size%64 == 0 {
 			w.Distinct("every-size", size)
+			c08Trailing(w, typ, size, sealed)
+		}
+	}
+	// ... and at the sizes where buffers and limits usually sit
+	for i, size := range []int{1 << 10, 1 << 12, 1 << 16, 1 << 20, 1<<20 + 1, 1<<16 - 1} {
+		if !w.Mine(i) {
+			continue
+		}
+		for _, typ := range []string{"dlg", "inv"} {
+			if sealed, ok := exactSizeToken(typ, size, false); ok {
+				w.Cover("trailing-bytes/power-of-two-size")
+				c08Trailing(w, typ, size, sealed)
+				want := ref.CID(sealed)
+				for _, d := range c08Decoders(typ) {
+					if _, c, err := d.f(sealed); err != nil || !c.Equals(want) {
+						w.Violate("every-size/unseal-fails/"+d.name, fmt.Sprintf("%s on a sealed %s of exactly %d bytes: err=%v cid=%s (bytes hash to %s)", d.name, typ, size, err, c, want), map[string]any{"size": size, "type": typ, "decoder": d.name})
+					}
+				}
+			}
+		}
+	}
+}
+
+// c08Trailing: a sealed token followed by more bytes is not a sealed token - for the buffered
+// API and for the streaming one alike (no CID of a prefix).
+func c08Trailing(w *mon.W, typ string, size int, sealed []byte) {
+	for _, tail := range [][]byte{{0x00}, {0xff}, sealed[:1], bytes.Repeat([]byte{0x20}, 64)} {
+		in := append(append([]byte{}, sealed...), tail...)
+		for _, d := range c08Decoders(typ) {
+			t, c, err := d.f(in)
+			w.Eval(1)
+			w.Cover("trailing-bytes")
+			if err == nil && t != nil {
+				w.Violate("trailing-bytes-accepted/"+d.name, fmt.Sprintf("%s accepts a sealed %s of %d bytes followed by %d more bytes and reports CID %s (the CID of the %d-byte prefix is %s)", d.name, typ, size, len(tail), c, size, ref.CID(sealed)),
+					map[string]any{"size": size, "type": typ, "decoder": d.name, "trailing_hex": mon.Hex(capBytes(tail, 16)), "reported_cid": c.String(), "cid_of_whole_input": ref.CID(in).String()})
+			}
 		}
 	}
 }
